@@ -8,7 +8,7 @@
              an "oracle choice" -- wherever the order matters: forceSetupOrdered, iterating an
              unordered set into Extend/MarshalJSON).  A value is `option handle`: the element
              pointer stored for the key, None = nil pointer (what SetDefault stores).
-   * list  : `option store`; None = nil (*List)(nil), i.e. the set is unordered.
+   * list  : `option store`; None = nil list pointer, i.e. the set is unordered.
              `store` is the ELEMENT-STORE SPEC of dt.List as Set uses it: the sequence of
              attached (element handle, value) pairs with push_back / remove handle /
              stable sort / iterate.  That the pointer-level dt.List refines this sequence
